@@ -201,6 +201,27 @@ def upper_case_replacement_negative_charges(v: List[int]) -> bool:
         return _agree(sp, ec, q, bool(pref), f"{r(s1)}{c1}{r(s2)}{ch}") and sp.name == renamed and sp != neutral and neutral.charge == 0
 
 
+TRIT_ELEMS = ["e", "H", "D", "T", "He", "C", "N", "O"]
+TRIT = [("T", {"T": 1}, 3), ("HT", {"H": 1, "T": 1}, 4), ("T2", {"T": 2}, 6), ("T2O", {"T": 2, "O": 1}, 22), ("CH3T", {"C": 1, "H": 3, "T": 1}, 18), ("DT", {"D": 1, "T": 1}, 5), ("HDO", {"H": 1, "D": 1, "O": 1}, 19), ("T3", {"T": 3}, 9)]
+
+
+def isotopes_in_user_list(v: List[int]) -> bool:
+    """
+    pre: len(v) == 2 and 0 <= v[0] < 8 and 0 <= v[1] < 6
+    post: _ == True
+    """
+    # both hydrogen isotopes of the isotope table in a user element list: each atom contributes its own nucleon number
+    a, c = prelude.concrete(v)
+    with prelude.NoTracing():
+        _setup(TRIT_ELEMS, PSEUDO)
+        name, ec, A = TRIT[a]
+        ch = CHARGES[c]
+        pref = "#" if (a + c) % 3 == 0 else ""
+        sp = Species(f"{pref}{name}{ch}")
+        q = ch.count("+") - ch.count("-")
+        return dict(sp.element_count) == ec and sp.charge == q and sp.massnumber == A and bool(sp.is_surface) == bool(pref) and (bool(pref) or bool(sp.is_atom) == (sum(ec.values()) == 1 and q == 0))
+
+
 def upper_case_elements_with_G_prefix(v: List[int]) -> bool:
     """
     pre: len(v) == 3 and all(0 <= x < 11 for x in v)
